@@ -56,27 +56,33 @@ def execAll (ct : ConvTable) (fault : Option Nat) : Run → List Stmt → Run ×
     | (r', some e) => (r', some e)
     | (r', none) => execAll ct fault r' rest
 
-/-- `ApplyBatchImpl._create` after `_transfer_elements_to_new_table` -/
-def create (ct : ConvTable) (fault : Option Nat) (p : Plan) (r : Run) : Run × Option Err :=
-  -- op_impl.create_table(self.new_table)
-  match execAll ct fault r (.createTmp p.newSchema :: p.tmpIndexes.map .createTmpIndex) with
+/-- `except: op_impl.drop_table(self.new_table); raise` (an exception of the clean-up replaces the original one) -/
+def cleanup (ct : ConvTable) (fault : Option Nat) (r : Run) (e : Err) : Run × Option Err :=
+  match step ct fault r .dropTmp with
+  | (r, some e2) => (r, some e2)
+  | (r, none) => (r, some e)
+
+/-- `else: op_impl.rename_table(...); for idx in self._gather_indexes_from_both_tables(): op_impl.create_index(idx)` -/
+def elseBranch (ct : ConvTable) (fault : Option Nat) (p : Plan) (r : Run) : Run × Option Err :=
+  match step ct fault r .renameTmp with
   | (r, some e) => (r, some e)
   | (r, none) =>
-    -- try: INSERT … SELECT; DROP original
-    match execAll ct fault r [.insertSelect p.feeds, .dropOld] with
-    | (r, some e) =>
-      -- except: DROP new table; raise      (an exception of the clean-up replaces the original one)
-      match step ct fault r .dropTmp with
-      | (r, some e2) => (r, some e2)
-      | (r, none) => (r, some e)
-    | (r, none) =>
-      -- else: RENAME; CREATE INDEX*
-      match step ct fault r .renameTmp with
-      | (r, some e) => (r, some e)
-      | (r, none) =>
-        match p.gather with
-        | .error e => (r, some e)
-        | .ok ixs => execAll ct fault r (ixs.map .createIndex)
+    match p.gather with
+    | .error e => (r, some e)
+    | .ok ixs => execAll ct fault r (ixs.map .createIndex)
+
+/-- `try: INSERT … SELECT; DROP original   except: …   else: …` -/
+def tryBlock (ct : ConvTable) (fault : Option Nat) (p : Plan) (r : Run) : Run × Option Err :=
+  match execAll ct fault r [.insertSelect p.feeds, .dropOld] with
+  | (r, some e) => cleanup ct fault r e
+  | (r, none) => elseBranch ct fault p r
+
+/-- `ApplyBatchImpl._create` after `_transfer_elements_to_new_table` -/
+def create (ct : ConvTable) (fault : Option Nat) (p : Plan) (r : Run) : Run × Option Err :=
+  -- op_impl.create_table(self.new_table): CREATE TABLE, then CREATE INDEX for table.indexes -- before the try
+  match execAll ct fault r (.createTmp p.newSchema :: p.tmpIndexes.map .createTmpIndex) with
+  | (r, some e) => (r, some e)
+  | (r, none) => tryBlock ct fault p r
 
 /-- how the enclosing scope ends: `_ensure_scope_for_ddl` / the caller's `with conn.begin()` roll back
     on an exception; `commitOnError` = the caller swallowed the exception and committed -/
